@@ -9,6 +9,9 @@
 #include <unistd.h>
 
 uint64_t eng_forks;
+#ifdef M4SIM_COV
+extern void __gcov_dump(void);
+#endif
 
 int eng_fork_run(void (*fn)(void *), void *ud, const char *stderr_path, int timeout_s, child_res_t *res) {
   fflush(stdout);
@@ -37,6 +40,9 @@ int eng_fork_run(void (*fn)(void *), void *ud, const char *stderr_path, int time
     heap_log_rebase();
     fn(ud);
     fflush(stderr);
+#ifdef M4SIM_COV
+    __gcov_dump(); /* coverage builds only (sim/cov.py): _exit would lose the counters */
+#endif
     _exit(0);
   }
   int st = 0;
